@@ -1,19 +1,41 @@
 (** C08 — A fixed-weight backtest reproduces the documented trading rules exactly.
-    FULL STATEMENT (not yet a theorem): for every fixed-weight configuration and every fully quoted
-    market, the fills (time, asset, quantity, price, commission), final cash and holdings, and daily
-    equity of [Backtest.run] equal those of [Spec.spec_run].
-    PROVED below: the per-step commutation lemmas of that refinement ([..._partial] marks the
-    theorem that stands for the missing composition).  The composition itself is exercised on every
-    run by the correspondence check, which compares the real sessions with [Spec.spec_run]. *)
+    [Spec.spec_run] is the documented rules written as a deliberately naive day-by-day simulator that
+    shares nothing with the broker / portfolio-construction / event-loop model ([Broker], [PCM],
+    [Sizer], [Backtest]) except the calendar and the numeric primitives.
+    THEOREM: for every fixed-weight configuration (any static universe, any weight vector with
+    distinct keys, either sizing mode, any fee model, schedule, burn-in, dates and cash) and EVERY
+    market, if the session runs without raising then the rules simulator is defined on the same
+    inputs and the two agree on: every fill (time, asset, quantity, price, commission), the times and
+    values of the daily equity, and the final cash, holdings and pending orders.
+    Values that the model computes through different but equal rational expressions (equity, cash)
+    are related by [==] on Q; everything else is Leibniz equality. *)
 From Coq Require Import ZArith QArith String List.
-From QS Require Import theories.Num theories.Position theories.Portfolio theories.Fees theories.Broker
-  theories.Sizer theories.PCM theories.Backtest theories.Spec proofs.Ledger proofs.PcmProofs proofs.Refinement.
+From QS Require Import theories.Num theories.Position theories.Portfolio theories.Fees theories.Broker theories.Clock
+  theories.Sizer theories.PCM theories.Backtest theories.Spec proofs.Ledger proofs.PcmProofs proofs.BacktestProofs
+  proofs.Refinement proofs.SpecBroker proofs.SpecRun.
 Import ListNotations.
 Open Scope Z_scope.
 
+Theorem backtest_refines_spec :
+  forall cfg w u market tr,
+    c_alpha cfg = AFixed w -> c_univ cfg = StaticU u -> c_lookbacks cfg = None -> NoDup (map fst w) ->
+    run cfg market = Ok tr -> tr_noerr tr ->
+    exists sched s_end st days,
+      schedule_of cfg = Ok sched /\ end_state cfg market = Some s_end /\
+      spec_run (spec_of cfg w u sched) market = Some (st, days) /\
+      tr_fills tr = spec_fills days /\
+      Forall2 same_equity (tr_equity tr) (spec_equity days) /\
+      (cash_of pid (ss_broker s_end) == st_cash st)%Q /\
+      held_of (ss_broker s_end) = st_hold st /\
+      pending_of (ss_broker s_end) = st_pending st.
+Proof. exact SpecRun.backtest_refines_spec. Qed.
+Print Assumptions backtest_refines_spec.
+
+(** the pieces of that proof that are of independent interest *)
+
 (** executing one order at the quoted price does to cash exactly what the rules say and records
     the same fill (price, commission on the consideration rounded to a whole unit) *)
-Theorem backtest_refines_spec_partial :
+Theorem one_execution_is_one_rule_fill :
   forall snap b a q id b1 ef st p,
     snap_find a snap = Some p ->
     (st_cash st == cash_of pid b)%Q ->
@@ -23,7 +45,7 @@ Theorem backtest_refines_spec_partial :
       ef = [Fill pid (mkTxn a (inject_Z q) (b_dt b) p comm id)] /\
       (st_cash st' == cash_of pid b1)%Q.
 Proof. exact execute_refines_fill_one. Qed.
-Print Assumptions backtest_refines_spec_partial.
+Print Assumptions one_execution_is_one_rule_fill.
 
 (** the broker's "sells first, each side in queue order" is the rules' "sells first, then buys" *)
 Theorem open_fill_order_is_sells_then_buys :
@@ -74,18 +96,14 @@ Definition spec8 : spec_cfg :=
   mkSpec (18267 * 86400) (18285 * 86400 + 86340) ["A"; "B"]%string [("A"%string, (3 # 5)%Q); ("B"%string, (2 # 5)%Q)]
          (100000 # 1)%Q (match Schedule.weekly (18267 * 86400) (18285 * 86400 + 86340) "WED" false with Ok l => l | Err _ => [] end)
          true (1 # 20)%Q (PercentFee (1 # 1000) 0) None.
-Definition session_fills (tr : list (Z * output)) : list (Z * string * Q * Q * Q) :=
-  flat_map (fun o => match snd o with OFill tx => [(fst o, t_asset tx, t_qty tx, t_price tx, t_comm tx)] | _ => [] end) tr.
-Definition spec_fills (days : list day_out) : list (Z * string * Q * Q * Q) :=
-  flat_map (fun d => map (fun f => match f with SFill t a q p c => (t, a, inject_Z q, p, c) end) (d_fills d)) days.
-Example instance_of_the_full_statement :
-  exists tr st days,
-    run cfg8 mk8 = Ok tr /\ spec_run spec8 mk8 = Some (st, days) /\
-    session_fills tr = spec_fills days /\ length (session_fills tr) = 6%nat /\
-    map (fun o => fst o) (filter (fun o => match snd o with OEquity _ => true | _ => false end) tr) =
-    flat_map (fun d => match d_equity d with Some e => [fst e] | None => [] end) days.
+Example hypotheses_are_satisfiable :
+  exists tr,
+    c_alpha cfg8 = AFixed [("A"%string, (3 # 5)%Q); ("B"%string, (2 # 5)%Q)] /\ c_univ cfg8 = StaticU ["A"; "B"]%string /\
+    c_lookbacks cfg8 = None /\ NoDup (map fst [("A"%string, (3 # 5)%Q); ("B"%string, (2 # 5)%Q)]) /\
+    run cfg8 mk8 = Ok tr /\ tr_noerr tr /\ length (tr_fills tr) = 6%nat /\ length (tr_equity tr) = 15%nat.
 Proof.
-  eexists. eexists. eexists. split; [vm_compute; reflexivity|]. split; [vm_compute; reflexivity|].
-  split; [vm_compute; reflexivity|]. split; reflexivity.
+  eexists. split; [reflexivity|]. split; [reflexivity|]. split; [reflexivity|]. split.
+  { constructor; [simpl; intros [H|[]]; discriminate|]. constructor; [intros []|constructor]. }
+  split; [vm_compute; reflexivity|]. split; [unfold tr_noerr; repeat constructor|]. split; reflexivity.
 Qed.
-Print Assumptions instance_of_the_full_statement.
+Print Assumptions hypotheses_are_satisfiable.
